@@ -357,6 +357,9 @@ pub struct NetWorld {
     /// nodes whose pending end-of-connection notices are listed last among the enabled transitions
     /// (the default schedule then lets everything else happen before such a node notices)
     pub eof_last: Vec<usize>,
+    /// every line put on a link, in order: (link index, true = opener -> server, line); includes
+    /// the handshake; compared with the real transport by the conformance stage (wire.rs)
+    pub wire: Vec<(usize, bool, String)>,
 }
 
 /// prefix of traffic-log entries that are reply lines on an incoming connection (acks, ok, results),
@@ -391,7 +394,7 @@ impl NetWorld {
             names.push(node_name(i));
             nodes.push(NNode { node, loops, repl_q: VecDeque::new(), sup_q: VecDeque::new(), alive: true, changed: false, links_seen: 0, join_worker: None, started: false });
         }
-        NetWorld { nodes, links: vec![], clients: vec![], names, problems: vec![], counters: BTreeMap::new(), steps: 0, traffic: vec![], lazy_eof: false, eof_last: vec![] }
+        NetWorld { nodes, links: vec![], clients: vec![], names, problems: vec![], counters: BTreeMap::new(), steps: 0, traffic: vec![], lazy_eof: false, eof_last: vec![], wire: vec![] }
     }
 
     pub fn idx(&self, name: &str) -> Option<usize> {
@@ -443,6 +446,9 @@ impl NetWorld {
                             fwd.push_back(format!("set-secoundary {}", h.self_addr));
                             fwd.push_back(format!("replicate-since {} {}", h.self_addr, nundb::disk_ops::Oplog::last_op_time()));
                         }
+                        for m in fwd.iter() {
+                            self.wire.push((self.links.len(), true, m.clone()));
+                        }
                         let server = Worker::spawn(&format!("n{}<-n{}#{}", to + 1, i + 1, self.links.len()), &self.nodes[to].node, false);
                         self.links.push(Link { from: i, to, handle: h, server, fwd, back: VecDeque::new(), open: true, delivered: 0, eof_pending: false });
                     }
@@ -470,6 +476,7 @@ impl NetWorld {
             for m in msgs {
                 let (f, t) = (self.links[li].from, self.links[li].to);
                 self.traffic.push((f, t, m.clone()));
+                self.wire.push((li, true, m.clone()));
                 self.links[li].fwd.push_back(m);
             }
         }
@@ -611,6 +618,7 @@ impl NetWorld {
                             if !line.trim().is_empty() {
                                 // REPLY_MARK: written back on the connection the command came in on
                                 self.traffic.push((t, f, format!("{}{}", REPLY_MARK, line.trim())));
+                                self.wire.push((li, false, line.trim().to_string()));
                                 self.links[li].back.push_back(line.trim().to_string());
                             }
                         }
